@@ -32,6 +32,15 @@ type NodeModel struct {
 	Ranks map[string]map[string][]int
 	// Producers lists every node literal in a grammar action with the rule it belongs to
 	Producers []Producer
+	// Appends lists the one-element appends x.F = append(x.F, $n) to list fields of nodes in grammar actions
+	Appends []FieldAppend
+}
+
+// FieldAppend is one `x.F = append(x.F, $n)` in the action of a grammar rule.
+type FieldAppend struct {
+	Rule        int
+	Kind, Field string
+	N           int
 }
 
 // Producer is one &ast.T{...} literal inside the action of a grammar rule.
@@ -42,6 +51,10 @@ type Producer struct {
 	Pos    token.Pos
 	Parent string // kind of the enclosing node literal, "" at top level
 	PField string // field of the enclosing literal that holds this one
+	// OneElem[field]: the field is given as a one-element list literal ([]T{$n}): the production contributes exactly one element
+	OneElem map[string]bool
+	// True[field]: the field is given as the constant true
+	True map[string]bool
 }
 
 func (m *NodeModel) catOf(t types.Type) (cat string, slice bool) {
@@ -314,6 +327,19 @@ func (m *NodeModel) flow(p *Program, g *LALR) {
 							assign(locOf(n.Lhs[i]), info.TypeOf(n.Lhs[i]), n.Rhs[i])
 						}
 					}
+					if iter == 0 && curRule > 0 && len(n.Lhs) == 1 && len(n.Rhs) == 1 {
+						if sel, ok := n.Lhs[0].(*ast.SelectorExpr); ok {
+							if call, ok := n.Rhs[0].(*ast.CallExpr); ok && len(call.Args) == 2 && !call.Ellipsis.IsValid() {
+								if id, ok := call.Fun.(*ast.Ident); ok && id.Name == "append" {
+									if k := m.nodeKind(info.TypeOf(sel.X)); k != "" {
+										if d := firstDollar(info, call.Args[1]); d > 0 {
+											m.Appends = append(m.Appends, FieldAppend{curRule, k, sel.Sel.Name, d})
+										}
+									}
+								}
+							}
+						}
+					}
 				case *ast.ValueSpec:
 					for i, name := range n.Names {
 						if i < len(n.Values) {
@@ -330,11 +356,19 @@ func (m *NodeModel) flow(p *Program, g *LALR) {
 							if iter == 0 {
 								m.Literals[nn.Obj().Name()] = append(m.Literals[nn.Obj().Name()], n.Pos())
 								if curRule > 0 {
-									pr := Producer{Kind: nn.Obj().Name(), Rule: curRule, Fields: map[string]int{}, Pos: n.Pos()}
+									pr := Producer{Kind: nn.Obj().Name(), Rule: curRule, Fields: map[string]int{}, Pos: n.Pos(), OneElem: map[string]bool{}, True: map[string]bool{}}
 									for _, el := range n.Elts {
 										if kv, ok := el.(*ast.KeyValueExpr); ok {
 											if key, ok := kv.Key.(*ast.Ident); ok {
 												pr.Fields[key.Name] = firstDollar(info, kv.Value)
+												if id, ok := kv.Value.(*ast.Ident); ok && id.Name == "true" {
+													pr.True[key.Name] = true
+												}
+												if cl, ok := kv.Value.(*ast.CompositeLit); ok && len(cl.Elts) == 1 {
+													if _, isSlice := info.TypeOf(cl).Underlying().(*types.Slice); isSlice {
+														pr.OneElem[key.Name] = true
+													}
+												}
 											}
 										}
 									}
@@ -534,4 +568,18 @@ func (m *NodeModel) Before(kind, f, g string) (before bool, ok bool) {
 		}
 	}
 	return res, seen
+}
+
+// Paired reports whether list fields f and g of kind grow in lock step: one grammar action appends one element to each of them,
+// f's element written before g's (a map literal's `key: value` entries). Element i of g then stands between elements i and
+// i+1 of f in the source.
+func (m *NodeModel) Paired(kind, f, g string) bool {
+	for _, a := range m.Appends {
+		for _, b := range m.Appends {
+			if a.Rule == b.Rule && a.Kind == kind && b.Kind == kind && a.Field == f && b.Field == g && a.N < b.N {
+				return true
+			}
+		}
+	}
+	return false
 }
